@@ -38,6 +38,8 @@ def make_panel(case, explicit_model=None, **extra):
         p.model = MODEL_NAME[model]
     for k, v in case['flags'].items():
         setattr(p, k, v)
+    # 16 worker processes run side by side: field kernels use one thread unless a check varies it on purpose
+    p.out_num_cores = 1
     y = case.get('y')
     if y is not None:
         p.y1, p.y2 = y[0], y[1]
